@@ -70,6 +70,24 @@ def batch_ch(X, labels) -> float:
         return float(_sk().calinski_harabasz_score(np.asarray(X, dtype=float), np.asarray(labels, dtype=int)))
 
 
+def cancel_tol(X, labels) -> float:
+    """relative tolerance for a value that divides by the within-cluster scatter: WGSS is accumulated as a difference of
+    sums of squares of magnitude S = sum |x|^2, so its absolute rounding error is of the order of eps*S and its relative
+    error eps*S/WGSS — tiny for ordinary data, visible (1e-8 … 1e-4) for tight clusters; a wrong formula is off by O(1)"""
+    A = np.asarray(X, dtype=float)
+    lab = np.asarray(labels, dtype=int)
+    if len(A) == 0:
+        return TOL
+    wg = 0.0
+    for k in set(lab.tolist()):
+        M = A[lab == k]
+        wg += float(((M - M.mean(axis=0)) ** 2).sum())
+    S = float((A ** 2).sum()) + 1.0
+    if wg <= 0.0:
+        return TOL
+    return max(TOL, 256 * 2.220446049250313e-16 * S / wg)
+
+
 def exact_wgss_zero(X, labels) -> bool:
     labels = [int(t) for t in labels]
     for k in set(labels):
@@ -85,8 +103,9 @@ def exact_wgss_zero(X, labels) -> bool:
 def gen_sequence(r, nops: int):
     """returns (d, ops) with ops = ('a', l, x) | ('s', lo, ln, x); all permitted"""
     d = r.randint(1, 4)
-    style = r.choice(["uniform", "dups", "dups", "coarse", "blobs"])
+    style = r.choice(["uniform", "dups", "dups", "coarse", "blobs", "tight", "tight"])
     pool = None
+    centres = [[r.randint(2, 14) / 16 for _ in range(d)] for _ in range(r.randint(2, 3))]
     if style == "dups":
         pool = [[r.randint(0, 16) / 16 for _ in range(d)] for _ in range(r.randint(1, 4))]
     nlab = r.choice([1, 2, 3, 5, 5])
@@ -109,6 +128,11 @@ def gen_sequence(r, nops: int):
                 x = list(r.choice(pool))
             elif style == "coarse":
                 x = [r.choice([0, 4, 8, 12, 16]) / 16 for _ in range(d)]
+            elif style == "tight":
+                # tight clusters: readings a few 1e-5 apart around well separated centres — the within-cluster
+                # scatter is tiny but not zero, the index is large and perfectly well defined
+                c_ = r.choice(centres)
+                x = [c_[j] + r.randint(-3, 3) * 2.0 ** -17 for j in range(d)]
             elif style == "blobs" and data and r.random() < 0.7:
                 b = r.choice(data)[0]
                 x = [min(1.0, max(0.0, b[j] + r.randint(-1, 1) / 16)) for j in range(d)]
@@ -217,7 +241,7 @@ def check_sequences(ctx):
         # ---- oracle (b): implementation alone, against sklearn
         for j, rc in enumerate(recs):
             want = batch_ch(rc["X"], rc["labels"])
-            if not close(rc["crit"], want):
+            if not close(rc["crit"], want, cancel_tol(rc["X"], rc["labels"])):
                 opname = "switch_label" if rc["op"] == "s" else "add_sample"
                 if exact_wgss_zero(rc["X"], rc["labels"]) and rc["wgss"] != 0.0 and rc["k"] >= 2:
                     sig = F26_SIG % opname
@@ -269,7 +293,7 @@ def check_sequences(ctx):
             if not close(float(mw), rc["wgss"]) and abs(float(mw) - rc["wgss"]) > 1e-12:
                 ctx.issue("diff", "icvi-seq:WGSS", f"case {cid} op {j}: impl WGSS {rc['wgss']!r} model {float(mw)!r} ({mw})", rep)
                 break
-            if not close(float(mc), rc["crit"]):
+            if not close(float(mc), rc["crit"], cancel_tol(rc["X"], rc["labels"])):
                 ctx.issue("diff", "icvi-seq:criterion", f"case {cid} op {j}: impl criterion {rc['crit']!r} model {float(mc)!r} ({mc})", rep)
                 break
 
@@ -591,8 +615,8 @@ def prepare(ctx):
     """Translator tie (see gen_tie.py): the source of this slice is re-translated to Lean on every run
     (harness/artv/itrans.py) and proved equal to the model the property theorems are about"""
     from .gen_tie import gen_prepare, extra_theorems
-    from .. import itrans
-    gen_prepare(ctx, extra_theorems("itrans") + [], itrans.COVERS)
+    from .. import itrans, gtrans
+    gen_prepare(ctx, extra_theorems("itrans") + extra_theorems("gtrans"), itrans.COVERS + "; " + gtrans.COVERS)
 
 def run(ctx):
     ctx.trusted += ["sklearn.metrics.calinski_harabasz_score / davies_bouldin_score / silhouette_score (oracle values)",
